@@ -1527,7 +1527,10 @@ impl SourceTextModule {
     #[allow(clippy::mutable_key_type)]
     fn gather_available_ancestors(&self, exec_list: &mut FxHashSet<Module>) {
         // 1. For each Cyclic Module Record m of module.[[AsyncParentModules]], do
-        let parents = std::mem::take(&mut *self.async_parent_modules.borrow_mut());
+        // [[AsyncParentModules]] must stay in place: when a parent without top-level await is executed from
+        // `AsyncModuleExecutionFulfilled` and throws, `AsyncModuleExecutionRejected(parent)` has to reach the
+        // parent's own parents (which this recursion has already put in `exec_list`).
+        let parents = self.async_parent_modules.borrow().clone();
         for m in parents {
             let ModuleKind::SourceText(m_src) = m.kind() else {
                 continue;
@@ -2151,7 +2154,7 @@ fn async_module_execution_fulfilled(module: &Module, context: &mut Context) -> J
             let e = &JsError::from_opaque(e.into_opaque(context)?);
 
             // 1. Perform AsyncModuleExecutionRejected(m, result.[[Value]]).
-            async_module_execution_rejected(module, e, context)?;
+            async_module_execution_rejected(&m, e, context)?;
             continue;
         }
 
